@@ -213,6 +213,284 @@ def exact_layer(run, n_cases, thorough):
     return dterms, gterms, dcases, gcases, errors
 
 
+# ------------------------------------------------------------------------------------------------ Hockney field solve
+PRE_H = """From Coq Require Import List Bool Arith ZArith QArith.
+From Cheetah Require Import SpaceCharge.Cic SpaceCharge.Hockney SpaceCharge.HockneyCheck.
+Import ListNotations. Open Scope Q_scope."""
+ME_EV = 510998.95            # eV; only used to choose beam energies (the gamma the code derives is read back from the beam)
+H_FIXED_SHAPES = [(2, 3, 4), (4, 4, 4), (3, 5, 2)]
+H_REL_FFT = 1e-9             # FFT round-off: relative to k0 * max|G| * sum|rho|
+H_REL_FIELD = 1e-12          # stencil round-off (1/cell, 1/gamma^2 are rounded floats): relative to max|phi| * igamma2 / cell
+
+
+def arr3(a):
+    return coq_list([coq_list([coq_list([qz(v) for v in row]) for row in pl]) for pl in a])
+
+
+def sh3(shape):
+    return f"({shape[0]}, {shape[1]}, {shape[2]})%nat"
+
+
+def gen_hshape(rng, k, thorough):
+    if k < len(H_FIXED_SHAPES):
+        return list(H_FIXED_SHAPES[k])
+    hi = 6 if thorough else 5
+    while True:
+        sh = [rng.choice([1, 2, 3, 3, 4, 4, 5, hi]) for _ in range(3)]
+        if sh[0] * sh[1] * sh[2] <= (125 if thorough else 64):
+            return sh
+
+
+def gen_density(rng, shape, kind):
+    nx, ny, nz = shape
+    rho = [[[0 for _ in range(nz)] for _ in range(ny)] for _ in range(nx)]
+    cells = [(i, j, k) for i in range(nx) for j in range(ny) for k in range(nz)]
+    if kind == "delta":
+        pick = [rng.choice(cells)]
+    elif kind == "corners":      # cells on the faces of the grid: where a wrap-around image would be felt first
+        face = [c for c in cells if any(c[a] in (0, shape[a] - 1) for a in range(3))]
+        pick = rng.sample(face, min(len(face), rng.randrange(1, 5)))
+    elif kind == "sparse":
+        pick = rng.sample(cells, max(1, len(cells) // 4))
+    else:
+        pick = cells
+    for (i, j, k) in pick:
+        rho[i][j][k] = rng.choice([-5, -3, -2, -1, 1, 1, 2, 3, 4, 7])
+    return rho
+
+
+def gen_hcase(rng, k, thorough):
+    shape = gen_hshape(rng, k, thorough)
+    B = rng.choice([1, 1, 2, 3])
+    kinds = ["delta", "corners", "sparse", "dense"]
+    return dict(shape=shape, B=B,
+                cell=[[rng.choice([1.0, 0.5, 2.0, 0.3, 1.7, 0.04]) * 10 ** rng.uniform(-5, -3) for _ in range(3)] for _ in range(B)],
+                gamma_target=[10 ** rng.uniform(0.2, 3.3) for _ in range(B)],
+                kind=[kinds[(k + b) % 4] for b in range(B)],
+                rho=[gen_density(rng, shape, kinds[(k + b) % 4]) for b in range(B)],
+                phi=[[[[rng.randrange(-20, 21) for _ in range(shape[2])] for _ in range(shape[1])] for _ in range(shape[0])] for _ in range(B)])
+
+
+def h_beam(case):
+    import cheetah
+    B = case["B"]
+    P = torch.zeros((B, 1, 7), dtype=D)
+    P[..., 6] = 1
+    en = torch.tensor([g * ME_EV for g in case["gamma_target"]], dtype=D)
+    return cheetah.ParticleBeam(particles=P, energy=en, particle_charges=torch.ones((B, 1), dtype=D)), P.clone()
+
+
+def ipot_np(x, y, t):
+    import numpy as np
+    r = np.sqrt(x * x + y * y + t * t)
+    return (-0.5 * t * t * np.arctan(x * y / (t * r)) - 0.5 * y * y * np.arctan(x * t / (y * r)) - 0.5 * x * x * np.arctan(y * t / (x * r))
+            + y * t * np.arcsinh(x / np.sqrt(y * y + t * t)) + x * t * np.arcsinh(y / np.sqrt(x * x + t * t))
+            + x * y * np.arcsinh(t / np.sqrt(x * x + y * y)))
+
+
+def igf_reference(shape, cell, gamma):
+    """the integrated Green function of the first octant, written independently: the integral of 1/r over one cell centred at
+    (i dx, j dy, k dtau gamma) = alternating sum of the antiderivative over the 8 cell corners."""
+    import numpy as np
+    dx, dy, dt = cell[0], cell[1], cell[2] * gamma
+    i, j, k = np.meshgrid(np.arange(shape[0], dtype=float), np.arange(shape[1], dtype=float), np.arange(shape[2], dtype=float), indexing="ij")
+    G = np.zeros(tuple(shape))
+    for sx in (1, -1):
+        for sy in (1, -1):
+            for st in (1, -1):
+                G += sx * sy * st * ipot_np((i + 0.5 * sx) * dx, (j + 0.5 * sy) * dy, (k + 0.5 * st) * dt)
+    return G
+
+
+def mirror_reference(G):
+    """the doubled array Hockney's method needs, built independently of the code's slicing: entry m of an axis with n points
+    holds G[m] (m < n), nothing (m = n), G[2n - m] (m > n)."""
+    import numpy as np
+    n = G.shape
+    out = np.zeros(tuple(2 * v for v in n))
+    src = [[m if m < v else (None if m == v else 2 * v - m) for m in range(2 * v)] for v in n]
+    for a, ia in enumerate(src[0]):
+        for b, ib in enumerate(src[1]):
+            for c, ic in enumerate(src[2]):
+                if ia is not None and ib is not None and ic is not None:
+                    out[a, b, c] = G[ia, ib, ic]
+    return out
+
+
+def open_sum_reference(G, rho):
+    """phi(i,j,k) = sum over the physical grid of G(|i-i'|,|j-j'|,|k-k'|) rho(i',j',k') by direct summation."""
+    import numpy as np
+    n = rho.shape
+    out = np.zeros(n)
+    ii = [np.abs(np.arange(v)[:, None] - np.arange(v)[None, :]) for v in n]
+    for i in range(n[0]):
+        for j in range(n[1]):
+            for k in range(n[2]):
+                out[i, j, k] = (G[ii[0][i][:, None, None], ii[1][j][None, :, None], ii[2][k][None, None, :]] * rho).sum()
+    return out
+
+
+def field_reference(phi, cell, ig2):
+    import numpy as np
+    out = []
+    for ax in range(3):
+        g = np.zeros(phi.shape)
+        if phi.shape[ax] >= 3:
+            sl = [slice(None)] * 3
+            hi, lo, mid = list(sl), list(sl), list(sl)
+            hi[ax], lo[ax], mid[ax] = slice(2, None), slice(None, -2), slice(1, -1)
+            g[tuple(mid)] = (phi[tuple(hi)] - phi[tuple(lo)]) * 0.5 / cell[ax]
+        out.append(-ig2 * g)
+    return out
+
+
+def h_observe(case, stages=("green", "potential", "field", "solve")):
+    """drive the real code.  Only the deposition (for potential/solve) resp. the Poisson solve (for field) is replaced by known data."""
+    from scipy.constants import epsilon_0
+    shape = case["shape"]
+    beam, xp = h_beam(case)
+    cell = torch.tensor(case["cell"], dtype=D)
+    gd = cell * torch.tensor(shape, dtype=D) / 2
+    rho = torch.tensor(case["rho"], dtype=D)
+    phi = torch.tensor(case["phi"], dtype=D)
+    obs = dict(gamma=[float(g) for g in beam.relativistic_gamma], k0=float(1 / (4 * torch.pi * epsilon_0)))
+    if "green" in stages:
+        obs["green"] = mk_kick(shape)._integrated_green_function(beam, cell).tolist()
+    if "potential" in stages:
+        el = mk_kick(shape)
+        el._deposit_charge_on_grid = lambda *a, **k: rho.clone()
+        obs["potential"] = el._solve_poisson_equation(beam, xp, cell, gd).tolist()
+    if "field" in stages:
+        el = mk_kick(shape)
+        el._solve_poisson_equation = lambda *a, **k: phi.clone()
+        obs["field"] = [t.tolist() for t in el._E_plus_vB_field(beam, xp, cell, gd)]
+    if "solve" in stages:
+        el = mk_kick(shape)
+        el._deposit_charge_on_grid = lambda *a, **k: rho.clone()
+        obs["solve"] = [t.tolist() for t in el._E_plus_vB_field(beam, xp, cell, gd)]
+    return obs
+
+
+def h_oracle(case, obs):
+    """differential oracle on the implementation alone (numpy, float64): returns a list of (clause, detail)."""
+    import numpy as np
+    bad = []
+    shape = tuple(case["shape"])
+    dshape = tuple(2 * v for v in shape)
+    for b in range(case["B"]):
+        cell, gamma, k0 = case["cell"][b], obs["gamma"][b], obs["k0"]
+        ig2 = 0.0 if gamma == 0 else 1 / gamma ** 2
+        rho, phi = np.array(case["rho"][b], dtype=float), np.array(case["phi"][b], dtype=float)
+        green = np.array(obs["green"][b])
+        if green.shape != dshape:
+            bad.append(("green_function_shape", {"sample": b, "shape": list(green.shape), "expected": list(dshape)}))
+            continue
+        G = green[: shape[0], : shape[1], : shape[2]]
+        want = mirror_reference(G)
+        if not np.array_equal(green, want):
+            ix = [int(v) for v in np.argwhere(green != want)[0]]
+            bad.append(("green_function_layout", {"sample": b, "doubled_index": ix, "observed": float(green[tuple(ix)]), "expected": float(want[tuple(ix)]),
+                                                   "expected_is": "G[m] for m < n, 0 at m = n, G[2n - m] for m > n, per axis, G = the array's own first octant"}))
+        Gref = igf_reference(shape, cell, gamma)
+        dev = float(np.abs(G - Gref).max())
+        if not dev <= 1e-9 * float(np.abs(Gref).max()):
+            ix = [int(v) for v in np.unravel_index(np.abs(G - Gref).argmax(), shape)]
+            bad.append(("green_function_values", {"sample": b, "index": ix, "observed": float(G[tuple(ix)]), "expected": float(Gref[tuple(ix)]),
+                                                   "expected_is": "integral of 1/r over the cell (8-corner sum of the antiderivative), tau scaled by gamma"}))
+        if "potential" in obs:
+            pot = np.array(obs["potential"][b])
+            wantp = k0 * open_sum_reference(G, rho)
+            tol = H_REL_FFT * k0 * float(np.abs(G).max()) * float(np.abs(rho).sum())
+            if pot.shape != shape or not float(np.abs(pot - wantp).max()) <= tol:
+                ix = [int(v) for v in np.unravel_index(np.abs(pot - wantp).argmax(), shape)] if pot.shape == shape else None
+                bad.append(("potential_is_open_boundary_sum", {"sample": b, "index": ix, "observed": float(pot[tuple(ix)]) if ix else list(pot.shape),
+                                                                "expected": float(wantp[tuple(ix)]) if ix else list(shape), "tolerance": tol,
+                                                                "expected_is": "k0 * sum_{cells'} G(|i-i'|,|j-j'|,|k-k'|) rho(cell'), G = first octant of the code's own Green array"}))
+        if "field" in obs:
+            wantf = field_reference(phi, cell, ig2)
+            for c in range(3):
+                f = np.array(obs["field"][c][b])
+                tol = H_REL_FIELD * ig2 * float(np.abs(phi).max()) / cell[c]
+                if f.shape != shape or not float(np.abs(f - wantf[c]).max()) <= tol:
+                    ix = [int(v) for v in np.unravel_index(np.abs(f - wantf[c]).argmax(), shape)] if f.shape == shape else None
+                    bad.append(("field_is_central_difference", {"sample": b, "component": c, "index": ix, "observed": float(f[tuple(ix)]) if ix else list(f.shape),
+                                                                 "expected": float(wantf[c][tuple(ix)]) if ix else list(shape), "tolerance": tol,
+                                                                 "expected_is": "-(1/gamma^2) (phi[i+1] - phi[i-1]) / (2 cell) on [1:-1], 0 on the two boundary planes"}))
+        if "solve" in obs:
+            wants = field_reference(k0 * open_sum_reference(G, rho), cell, ig2)
+            for c in range(3):
+                f = np.array(obs["solve"][c][b])
+                tol = H_REL_FFT * k0 * float(np.abs(G).max()) * float(np.abs(rho).sum()) * ig2 / cell[c]
+                if f.shape != shape or not float(np.abs(f - wants[c]).max()) <= tol:
+                    ix = [int(v) for v in np.unravel_index(np.abs(f - wants[c]).argmax(), shape)] if f.shape == shape else None
+                    bad.append(("force_is_difference_of_open_boundary_sum", {"sample": b, "component": c, "index": ix,
+                                                                              "observed": float(f[tuple(ix)]) if ix else list(f.shape),
+                                                                              "expected": float(wants[c][tuple(ix)]) if ix else list(shape), "tolerance": tol}))
+    return bad
+
+
+def h_terms(case, obs):
+    """Coq case terms (one per sample of the batch) for the four checkers of HockneyCheck.v."""
+    import numpy as np
+    shape = case["shape"]
+    N = shape[0] * shape[1] * shape[2]
+    out = dict(green=[], potential=[], potential_open=[], field=[], solve=[])
+    for b in range(case["B"]):
+        cell, gamma, k0 = case["cell"][b], obs["gamma"][b], obs["k0"]
+        ig2 = 0.0 if gamma == 0 else 1 / gamma ** 2
+        green = np.array(obs["green"][b])
+        G = green[: shape[0], : shape[1], : shape[2]]
+        if green.shape != tuple(2 * v for v in shape):
+            out["green"].append("mkhg (0, 0, 0)%nat [[[1]]]")          # wrong shape: a case that fails
+            continue
+        out["green"].append(f"mkhg {sh3(shape)} {arr3(green.tolist())}")
+        sabs = float(np.abs(G).max()) * float(np.abs(np.array(case["rho"][b])).sum())
+        tolp = H_REL_FFT * k0 * sabs
+        pterm = f"mkhp {sh3(shape)} {qlit(k0)} {arr3(G.tolist())} {arr3(case['rho'][b])} {arr3(obs['potential'][b])} {qlit(tolp)}"
+        (out["potential"] if N <= 64 else out["potential_open"]).append(pterm)
+        maxphi = float(np.abs(np.array(case["phi"][b])).max())
+        tolf = "(" + ", ".join(qlit(H_REL_FIELD * ig2 * maxphi / cell[c]) for c in range(3)) + ")"
+        fo = "(" + ", ".join(arr3(obs["field"][c][b]) for c in range(3)) + ")"
+        out["field"].append(f"mkhf {sh3(shape)} {q3(cell)} {qlit(gamma)} {arr3(case['phi'][b])} {fo} {tolf}")
+        if N <= 36:
+            tols = "(" + ", ".join(qlit(H_REL_FFT * k0 * sabs * ig2 / cell[c]) for c in range(3)) + ")"
+            so = "(" + ", ".join(arr3(obs["solve"][c][b]) for c in range(3)) + ")"
+            out["solve"].append(f"mkhs {sh3(shape)} {q3(cell)} {qlit(k0)} {qlit(gamma)} {arr3(G.tolist())} {arr3(case['rho'][b])} {so} {tols}")
+    return out
+
+
+def hockney_layer(run, n_cases, thorough):
+    """returns (oracle failures, Coq terms per checker, the cases each term came from)."""
+    bad, terms, origin = [], dict(green=[], potential=[], potential_open=[], field=[], solve=[]), dict(green=[], potential=[], potential_open=[], field=[], solve=[])
+    for k in range(n_cases):
+        case = gen_hcase(run.rng, k, thorough)
+        run.add_case(["hockney", case], any(v != 0 for b in case["rho"] for pl in b for row in pl for v in row))
+        run.count("hockney_grid_%dx%dx%d" % tuple(case["shape"]))
+        run.count("hockney_batch_%d" % case["B"])
+        run.count("hockney_grid_cubic" if len(set(case["shape"])) == 1 else "hockney_grid_non_cubic")
+        for b in range(case["B"]):
+            run.count("hockney_density_" + case["kind"][b])
+            c = case["cell"][b]
+            run.count("hockney_cell_anisotropy_gt_3" if max(c) / min(c) > 3 else "hockney_cell_anisotropy_le_3")
+            run.count("hockney_gamma_lt_10" if case["gamma_target"][b] < 10 else "hockney_gamma_ge_10")
+        try:
+            obs = h_observe(case)
+            items = h_oracle(case, obs)
+            t = h_terms(case, obs)
+        except Exception as ex:  # noqa
+            bad.append(dict(kind="hockney", clause="raises", detail=repr(ex)[:300], case=case))
+            continue
+        for clause, detail in items:
+            bad.append(dict(kind="hockney", clause=clause, detail=detail, case=case))
+        for name in terms:
+            terms[name] += t[name]
+            origin[name] += [case] * len(t[name])
+        if k == 0:
+            run.sample({"hockney_case": dict(shape=case["shape"], cell=case["cell"], gamma=obs["gamma"], rho=case["rho"][0],
+                                             observed_potential=obs["potential"][0])})
+    return bad, terms, origin
+
+
 # ------------------------------------------------------------------------------------------------ full kicks
 def gen_beam_spec(rng, thorough):
     n = rng.randrange(40, 400 if thorough else 160)
@@ -548,15 +826,21 @@ def main(tier, replay=None):
                        "beyond the grid, dyadic charges and survival values incl. 0, batch of 1 or 2: _deposit_charge_on_grid (whole grid, exact) and "
                        "_compute_forces with a known integer force grid (1e-12) vs the Coq model; non-trivial = some particle with non-zero weight "
                        "inside the grid. (b) full kicks in float64 on random Gaussian bunches (40..400 particles, gamma 10..2000, grids 8..16 per "
-                       "axis, partial survival in 40%): metamorphic relations, and the same bunch re-used in a 9-step history on one element instance.")
+                       "axis, partial survival in 40%): metamorphic relations, and the same bunch re-used in a 9-step history on one element instance. "
+                       "(c) Hockney field solve on small grids (2x3x4, 4x4x4, 3x5x2, then random 1..6 points per axis, cubic and non-cubic), batches of "
+                       "1..3 samples with anisotropic cell sizes (ratios up to 50) and gamma 1.6..2000, integer densities (one cell / face cells / sparse / "
+                       "dense) and integer potentials: the real _integrated_green_function (every entry of the doubled array, exact), "
+                       "_solve_poisson_equation (1e-9), _E_plus_vB_field on a known potential (1e-12) and on a known density (whole solve) vs the Coq "
+                       "model Hockney.v with G := the code's own first octant, and vs independent numpy references; non-trivial = density not zero.")
     if replay:
         return do_replay(run, replay)
     proof_ok = run.proof_stage()
     if proof_ok:
-        ok, log = common.coq_build("theories/SpaceCharge/CicCheck.vo")
-        if not ok:
-            proof_ok = False
-            run.proof_problem = "coq build of SpaceCharge/CicCheck.vo failed: " + log[-800:]
+        for tgt in ("theories/SpaceCharge/CicCheck.vo", "theories/SpaceCharge/HockneyCheck.vo"):
+            ok, log = common.coq_build(tgt)
+            if not ok:
+                proof_ok = False
+                run.proof_problem = f"coq build of {tgt} failed: " + log[-800:]
     if not proof_ok:
         run.notes.append(run.proof_problem)
 
@@ -571,6 +855,22 @@ def main(tier, replay=None):
         run.cov["traces_validated_against_impl"] += len(dterms) + len(gterms)
     except RuntimeError as ex:
         corr_err = str(ex)
+
+    # ---- the Hockney field solve: layout of the doubled Green array, potential, field stencil, whole solve
+    hbad, hterms, horigin = hockney_layer(run, 40 if thorough else 12, thorough)
+    new_bad += hbad
+    hfail = {}
+    try:
+        for name, checker, shard in (("green", "hg_check", 12), ("potential", "hp_check", 6), ("potential_open", "hp_check_open", 12),
+                                     ("field", "hf_check", 12), ("solve", "hs_check", 4)):
+            if hterms[name]:
+                f = common.run_shards(PID, "hockney_" + name, PRE_H, hterms[name], checker, shard=shard)
+                run.count("hockney_coq_cases_" + name, len(hterms[name]))
+                run.cov["traces_validated_against_impl"] += len(hterms[name])
+                if f:
+                    hfail[name] = f
+    except RuntimeError as ex:
+        corr_err = (corr_err or "") + str(ex)
 
     # ---- metamorphic oracles on full kicks
     seen_f50 = []
@@ -629,7 +929,10 @@ def main(tier, replay=None):
         if not pushed_apart:
             new_bad.append(dict(kind="offaxis", clause="offaxis_bunch_not_pushed_apart", detail=res))
 
-    run.cov["tested_only"] = ["linearity / homogeneity of the FFT field solve (hypothesis of the theorems): charge-scaling relation on full kicks, 1e-6",
+    run.cov["tested_only"] = ["irfftn(rfftn(a) * rfftn(b)) == cyclic convolution (the convolution theorem for torch's FFT): modelled, not verified; tied to "
+                              "the code by _solve_poisson_equation vs the model's cyclic convolution on small grids (1e-9 of k0 max|G| sum|rho|)",
+                              "the integrated-Green-function VALUES (first octant) are data in the model; compared with an independent numpy evaluation "
+                              "of the 8-corner antiderivative sum (1e-9 of max|G|)",
                               "invariance of the sigma-based grid geometry under permutation, charge scaling, lost particles (enters the same relations)",
                               "delta: proportional to charge and length to first order (second-order remainder bounded by 4*max|ddelta|^2)",
                               "outward push (sign agreement >= 0.8, correlation >= 0.5 on a Gaussian bunch)",
@@ -641,8 +944,12 @@ def main(tier, replay=None):
 
     if new_bad:
         run.violation(dict(new_bad[0], relation="see clause; momentum changes are measured against the SI round trip of the same beam"))
-    elif dfail or gfail or corr_err:
-        if dfail:
+    elif dfail or gfail or corr_err or hfail:
+        if hfail:
+            name = sorted(hfail)[0]
+            rep = dict(kind="correspondence", broken=f"Coq model SpaceCharge/Hockney.v disagrees with the real field solve (stage {name}) on this input",
+                       case=horigin[name][hfail[name][0]])
+        elif dfail:
             rep = dict(kind="correspondence", broken="Coq model SpaceCharge/Cic.v (rho) disagrees with _deposit_charge_on_grid on this input", case=dcases[dfail[0]])
         elif gfail:
             rep = dict(kind="correspondence", broken="Coq model SpaceCharge/Cic.v (gather) disagrees with _compute_forces on this input", case=gcases[gfail[0]])
@@ -664,6 +971,10 @@ def guarded(fn):
 def do_replay(run, path):
     r = json.loads(open(path).read())
     kind = r.get("kind")
+    if kind == "hockney":
+        items = guarded(lambda: h_oracle(r["case"], h_observe(r["case"])))
+        print("replay:", "property holds on this input" if not items else f"property FAILS on this input: {items[:2]}")
+        return 1 if items else 0
     if kind == "cic":
         items = [(b["clause"], b["detail"]) for b in cic_one(r["geom"], r["particles"])]
         print("replay:", "property holds on this input" if not items else f"property FAILS on this input: {items[:2]}")
